@@ -22,7 +22,8 @@
      an option with or without the enum's prefix;
    * key:uuid = the canonical text 8-4-4-4-12 of hexadecimal digits; key:id62 =
      22 characters of 0-9 A-Z a-z; key:custom / pattern = the (RE2) pattern finds
-     a match in the text ([re_match], see Validate.v);
+     a match somewhere in the text ([pat_sem]: a parameter here; instantiated in
+     props/C12.v with the declarative matching relation of model/Regex.v);
    * required: the field must be populated. Presence is protobuf's: a singular
      scalar declared without [optional] has no presence of its own, it is
      populated iff its value is not the default (0, "", false, first enum value);
@@ -47,12 +48,12 @@ Definition within (lo hi : option N) (n : N) : Prop :=
   (forall m, lo = Some m -> (m <= n)%N) /\ (forall m, hi = Some m -> (n <= m)%N).
 
 Section Spec.
-(* [re_match p s]: the regular expression p (RE2 syntax) finds a match in the text s *)
-Variable re_match : str -> str -> bool.
+(* [pat_sem p s]: the regular expression p (RE2 syntax) finds a match in the text s *)
+Variable pat_sem : str -> str -> Prop.
 
 Definition str_sem (r : str_rules) (s : str) : Prop :=
   within (sr_min r) (sr_max r) (count s)          (* s: code points *)
-  /\ (forall p, sr_pat r = Some p -> re_match p s = true).
+  /\ (forall p, sr_pat r = Some p -> pat_sem p s).
 
 Definition bytes_sem (r : len_rules) (b : str) : Prop :=
   within (lr_min r) (lr_max r) (count b).         (* b: bytes *)
@@ -98,7 +99,7 @@ Definition id62_text (s : str) : Prop := length s = 22%nat /\ Forall alnum s.
 Definition key_sem (f : kfmt) (s : str) : Prop :=
   match f with
   | KInformal => True
-  | KCustom p => re_match p s = true
+  | KCustom p => pat_sem p s
   | KUuid => uuid_text s
   | KId62 => id62_text s
   end.
